@@ -34,6 +34,7 @@ type FuncCtx struct {
 	loopFrames   map[*ssa.BasicBlock][]string
 	ghostVars    map[string]SV
 	callResults  map[string][]SV
+	heapAllocs   map[*ssa.Alloc]*Term // reference of the heap object created by the latest execution of an escaping local's Alloc
 	freeSV       map[string]SV
 	depth        int
 	nRet         int
@@ -92,7 +93,7 @@ func (v *Verifier) VerifyFunction(key string) {
 	}()
 	fc := &FuncCtx{v: v, fn: fn, spec: spec, key: key, short: shortFuncName(key), paramSV: map[string]SV{}, allocsByName: map[string][]*ssa.Alloc{},
 		cellClass: map[*ssa.Alloc]bool{}, safeCount: map[string]int{}, callCount: map[string]int{}, mutatedParam: map[string]bool{},
-		loopOrd: map[*ssa.BasicBlock]int{}, loopHeadSt: map[*ssa.BasicBlock]*State{}, ghostVars: map[string]SV{}, callResults: map[string][]SV{}, freeSV: map[string]SV{}, loopFrames: map[*ssa.BasicBlock][]string{}}
+		loopOrd: map[*ssa.BasicBlock]int{}, loopHeadSt: map[*ssa.BasicBlock]*State{}, ghostVars: map[string]SV{}, callResults: map[string][]SV{}, freeSV: map[string]SV{}, heapAllocs: map[*ssa.Alloc]*Term{}, loopFrames: map[*ssa.BasicBlock][]string{}}
 	for _, g := range spec.Ghosts {
 		so, gt, err := v.resolveTypeOrSort(g.Type)
 		if err != nil {
@@ -307,6 +308,10 @@ func (fc *FuncCtx) env(st, old *State) *Env {
 		gt := a.Type().(*types.Pointer).Elem()
 		if t, ok := s.cells[a]; ok {
 			return SV{T: t, GoT: gt}, true, nil
+		}
+		if ref, ok := fc.heapAllocs[a]; ok {
+			// a local whose address escapes lives in the heap: its value is the pointee of the latest allocation
+			return SV{T: fc.v.c.Select(fc.v.getGlobal(s, fc.v.heapKeyFor(gt)), ref), GoT: gt}, true, nil
 		}
 		if sv, ok := fc.paramSV[base]; ok {
 			return sv, true, nil
